@@ -463,6 +463,9 @@ func RunCheck(propFile, tier string, only string, verbose bool) int {
 		totalSolver += s.Seconds
 	}
 	dedupInc := dedup(inconclusive)
+	if dedupInc == nil {
+		dedupInc = []string{}
+	}
 	ev := map[string]interface{}{
 		"property_id": spec.ID,
 		"tier":        tier,
